@@ -6,15 +6,11 @@ Open Scope N_scope.
 
 Theorem C02_maxima : forall r enum roots names,
   wf_b r = true -> contract r (walked roots) enum -> small r ->
-  match scan r enum roots names with
-  | SOk evs =>
+  exists evs, scan r enum roots names = SOk evs /\
       let h := history_of evs in
       let c := spec_census r (walked roots) in
       h_maxcommit h = sat32 (max_commit c) /\ h_maxparents h = sat32 (max_parents c) /\
-      h_maxentries h = sat32 (max_entries c) /\ h_maxblob h = sat32 (max_blob c)
-  | SPanic m => m = P_FUEL
-  | SErr _ => False
-  end.
+      h_maxentries h = sat32 (max_entries c) /\ h_maxblob h = sat32 (max_blob c).
 Proof. exact maxima_exact. Qed.
 Print Assumptions C02_maxima.
 
